@@ -63,15 +63,15 @@ template<typename T> struct Holder<T, TVOL> {
   tainted_volatile<T, SbxA>& get() { return *p; }
 };
 
-static const char* const BinOps[] = { "+", "-", "*", "/", "%", "^", "&", "|", "<<", ">>", "==", "!=", "<", "<=", ">", ">=" };
-constexpr int NBIN = 16;
+static const char* const BinOps[] = { "+", "-", "*", "/", "%", "^", "&", "|", "<<", ">>", "==", "!=", "<", "<=", ">", ">=", "&&", "||" };
+constexpr int NBIN = 18;
 
 #define APPLY(OPI, X, Y)                                                                                             \
   ((OPI) == 0 ? vv((X) + (Y)) : (OPI) == 1 ? vv((X) - (Y)) : (OPI) == 2 ? vv((X) * (Y)) : (OPI) == 3 ? vv((X) / (Y))   \
    : (OPI) == 4 ? vv((X) % (Y)) : (OPI) == 5 ? vv((X) ^ (Y)) : (OPI) == 6 ? band((X), (Y)) : (OPI) == 7 ? vv((X) | (Y)) \
    : (OPI) == 8 ? vv((X) << (Y)) : (OPI) == 9 ? vv((X) >> (Y)) : (OPI) == 10 ? vv((X) == (Y))                           \
    : (OPI) == 11 ? vv((X) != (Y)) : (OPI) == 12 ? vv((X) < (Y)) : (OPI) == 13 ? vv((X) <= (Y))                          \
-   : (OPI) == 14 ? vv((X) > (Y)) : vv((X) >= (Y)))
+   : (OPI) == 14 ? vv((X) > (Y)) : (OPI) == 15 ? vv((X) >= (Y)) : (OPI) == 16 ? vv((X) && (Y)) : vv((X) || (Y)))
 
 template<typename V> static std::string show_val(const V& v)
 {
@@ -100,6 +100,10 @@ template<typename L, typename R, int LW, int RW> static void type_asserts()
 #define TC(op) static_assert(std::is_same_v<decltype(std::declval<HL>() op std::declval<HR>()), std::conditional_t<hint, rlbox::tainted_boolean_hint, tainted<bool, SbxA>>>, "result type of " #op);
   TC(==) TC(!=) TC(<) TC(<=) TC(>) TC(>=)
 #undef TC
+  // logical operators: tainted<bool> whatever the wrappers (never a hint)
+#define TL(op) static_assert(std::is_same_v<decltype(std::declval<HL>() op std::declval<HR>()), tainted<bool, SbxA>>, "result type of " #op);
+  TL(&&) TL(||)
+#undef TL
 }
 
 template<typename L, typename R, int LW, int RW>
